@@ -105,6 +105,20 @@ chk("C15",
     "TLA+ pipeline spec + TLC; impl->spec trace validation of recorded tool runs; spec-generated programs (Gate) as inputs",
     "DESIGN.md §5 C15")
 
+chk("C14",
+    "spec/determ/Determinism.tla models the source as data (bridge modules, ordered items, non-bridge items, unrelated types) with "
+    "one action per edit -- Rerun, SwapItems (guarded: impls stay after their type, impl blocks of one type keep their order), "
+    "SwapModules, Insert/RemoveUnrelated, Add/RemoveNonBridge -- and states the property as action properties (GlobalFrame, "
+    "LocalFrame) over the semantic content Sem(src) of each type; TLC checks them exhaustively for histories of <=3 (4) edits and "
+    "refutes the negative model that allows swapping impl blocks of one type. TLC-simulated edit histories are then replayed on a "
+    "real source file: after every step all 7 backends run in fresh processes (fresh hash seeds) and the output trees must be "
+    "byte-identical as the action's frame condition demands (all files; or all files except the inserted type's and the per-crate "
+    "aggregate files).",
+    "3-type base program (opaque, struct, enum across two bridge modules) + 2 unrelated types + 5 kinds of non-bridge items; "
+    "12 (150) histories of 6 steps. Aggregate files are exempt only for insert/remove.",
+    "TLA+ spec + TLC (action properties) ; spec->impl replay of TLC-generated edit histories through the real binary",
+    "DESIGN.md §5 C14")
+
 NOT_YET = {}
 
 
